@@ -572,12 +572,14 @@ def check_isolation(maxlen):
             "]": mk(T.Punctuation, "]"), "o": mk(T.Operator, "=")}
     shapes = {"name (..)|[..] groups": lambda: [Name(), OneOrMore(Or(Balanced("(", ")"), Balanced("[", "]")))],
               "name (..) groups": lambda: [Name(), OneOrMore(Balanced("(", ")"))],
+              "(..) groups (the pattern starts with a stateful predicate)": lambda: [OneOrMore(Balanced("(", ")"))],
+              "(..)|[..] groups": lambda: [OneOrMore(Or(Balanced("(", ")"), Balanced("[", "]")))],
               "name (..)-and-not-name groups": lambda: [Name(), OneOrMore(And(Balanced("(", ")"), Not(Name())))]}
     fails, n = [], 0
     for pname, mkexpr in shapes.items():
         for ln in range(1, maxlen + 1):
             for seq in itertools.product(list(toks), repeat=ln):
-                if seq[0] != "id" and "id" not in seq[1:]:
+                if pname.startswith("name") and "id" not in seq:
                     continue
                 n += 1
                 items = [toks[x] for x in seq]
